@@ -1,8 +1,8 @@
 package rules
 
 import (
-	"go/types"
 	"go/token"
+	"go/types"
 	"strings"
 
 	"golang.org/x/tools/go/ssa"
@@ -242,7 +242,9 @@ func c11(c *Ctx) {
 		}
 		c.R.Check(okOwner, load.FuncName(fn)+": owner", c.pos(fn.Pos()), "exactly one owner reference: AsController(reference to the XRD)", "the CRD's owner references are not exactly AsController(ref to the XRD)")
 		// ... and nothing executed afterwards replaces the CRD's object metadata or owner references
-		for _, so := range cfgx.Calls(fn, func(ci ssa.CallInstruction) bool { return strings.HasSuffix(cfgx.CalleeName(ci), ".SetOwnerReferences") }) {
+		for _, so := range cfgx.Calls(fn, func(ci ssa.CallInstruction) bool {
+			return strings.HasSuffix(cfgx.CalleeName(ci), ".SetOwnerReferences")
+		}) {
 			clob := ""
 			for _, b := range fn.Blocks {
 				for _, in := range b.Instrs {
@@ -413,8 +415,8 @@ func c11(c *Ctx) {
 					if !ok || (bo.Op != token.EQL && bo.Op != token.NEQ) {
 						continue
 					}
-					rx, px, _ := flow.AccessPathC(bo.X)
-					ry, py, _ := flow.AccessPathC(bo.Y)
+					rx, px, _ := flow.AccessPathC(cfgx.ResolveAt(bo.X, b))
+					ry, py, _ := flow.AccessPathC(cfgx.ResolveAt(bo.Y, b))
 					if px == f && py == f && flow.Root(rx) != flow.Root(ry) {
 						t, fe := cfgx.CondEdges(bo)
 						if bo.Op == token.EQL {
